@@ -24,6 +24,14 @@ impl HeaderUtils for HeaderView {
 use std::cmp::Ordering;
 pub struct SendLastStateProofProcess { pub peer_index: PeerIndex }
 pub static mut OUT: Option<(Vec<HeaderView>, Vec<HeaderView>)> = None;
+// ---- the total-difficulty check of the proof against the peer's previously proved state (its text is the subject of C14): records its arguments, arbitrary verdict
+pub const TAU: u64 = 2;
+pub static mut VTD_CALLS: usize = 0;
+pub static mut VTD_ARGS: Option<(EpochNumberWithFraction, u32, U256, EpochNumberWithFraction, u32, U256, u64)> = None;
+pub static mut VTD_OK: bool = true;
+pub fn verify_total_difficulty(se: EpochNumberWithFraction, sc: u32, st: &U256, ee: EpochNumberWithFraction, ec: u32, et: &U256, tau: u64) -> Result<(), String> {
+    unsafe { VTD_CALLS += 1; VTD_ARGS = Some((se, sc, *st, ee, ec, *et, tau)); if VTD_OK { Ok(()) } else { Err(String::new()) } }
+}
 include!("extracted.rs");
 include!("../../prelude/status.rs");
 impl fmt::Display for PeerState { fn fmt(&self, f: &mut fmt::Formatter) -> fmt::Result { Ok(()) } }
@@ -56,7 +64,41 @@ mod harness {
         }
     }
     fn hv(id: u8, number: u64, parent: u8) -> HeaderView { HeaderView { id, number, parent, ..Default::default() } }
-    #[kani::proof] #[kani::unwind(7)]
+    /// a proof WITH SAMPLES from a peer that already holds a proved state is accepted only if the total difficulty of the new last header is consistent with the
+    /// previously proved one (verify_total_difficulty on exactly these two end points) - whatever else the response carries (reorg headers in particular)
+    #[cfg(td_gate)] #[kani::proof] #[kani::unwind(7)]
+    fn td_gate_runs() {
+        let r: usize = kani::any(); let s: usize = kani::any(); let c: usize = kani::any();
+        kani::assume(r <= 2 && s <= 1 && c >= 1 && c <= 2 && r + s + c <= 5);
+        let total = r + s + c;
+        let mut hs = Vec::new(); let mut i = 0;
+        while i < 5 { if i < total { hs.push(hv(kani::any(), kani::any(), kani::any())); } i += 1; }
+        let peer_state = any_state();
+        let mut last = any_vh(); last.header.epoch = EpochNumberWithFraction(kani::any()); last.header.compact_target = kani::any(); last.header.diff = kani::any();
+        // the overflow guard of the handler ran before (unit slsp / O10.td-guard)
+        kani::assume(last.root.td.0.checked_add(last.header.diff).is_some());
+        if let Some(ps) = peer_state.get_prove_state() { let p = ps.get_last_header(); kani::assume(p.root.td.0.checked_add(p.header.diff).is_some()); }
+        let req = any_req();
+        unsafe { VTD_CALLS = 0; VTD_ARGS = None; VTD_OK = kani::any(); }
+        let p = SendLastStateProofProcess { peer_index: PeerIndex(0) };
+        let st = p.td_gate(&hs[..], r, s, c, &peer_state, &last, &req);
+        unsafe {
+            match (s != 0, peer_state.get_prove_state()) {
+                (true, Some(ps)) => {
+                    let prev = ps.get_last_header();
+                    assert!(VTD_CALLS >= 1, "SPEC total difficulty gate: a sampled proof from a peer with a proved state was accepted without checking its total difficulty against the proved state");
+                    let a = VTD_ARGS.unwrap();
+                    assert!(a.0 == prev.header.epoch && a.1 == prev.header.compact_target && a.2 == prev.total_difficulty() && a.3 == last.header.epoch && a.4 == last.header.compact_target && a.5 == last.total_difficulty() && a.6 == 2,
+                            "SPEC total difficulty gate: verify_total_difficulty was not called with (previously proved last header, new last header, TAU)");
+                    assert!(st.is_ok() == VTD_OK, "SPEC total difficulty gate: the verdict of verify_total_difficulty was not honoured");
+                    if !VTD_OK { assert!(st.code() == StatusCode::InvalidTotalDifficulty, "SPEC total difficulty gate: wrong status for an inconsistent total difficulty"); }
+                    kani::cover!(r > 0 && !VTD_OK, "inconsistent total difficulty next to reorg headers rejected");
+                }
+                _ => { assert!(st.is_ok(), "SPEC total difficulty gate: rejected although there is nothing to compare with"); }
+            }
+        }
+    }
+    #[cfg(not(td_gate))] #[kani::proof] #[kani::unwind(7)]
     fn select_last_headers() {
         let n_blocks: usize = kani::any(); kani::assume(n_blocks >= 1 && n_blocks <= 3);
         let r: usize = kani::any(); let s: usize = kani::any(); let c: usize = kani::any();
